@@ -1,5 +1,5 @@
 #!/usr/bin/env python3
-"""Re-runs every seeded change against its property check (through git apply on /repo, restored afterwards)
+"""Re-runs every seeded change against its property check (through an in-memory overlay: /repo is not touched)
 and refreshes detected_by_check / failing_obligations in meta.json."""
 import json, subprocess, glob, os, sys
 only = sys.argv[1:] 
@@ -8,12 +8,10 @@ for d in sorted(glob.glob('/verif/seeded/*')):
     if only and not any(name.startswith(o) for o in only): continue
     m=json.load(open(d+'/meta.json'))
     prop=m['property']
-    if subprocess.run(['git','-C','/repo','apply',d+'/patch.diff']).returncode!=0:
+    r=subprocess.run(['/verif/bin/gocv','checkpatch',prop,d+'/patch.diff'],capture_output=True,text=True)
+    out=r.stdout
+    if r.returncode==2 and 'patch failed' in (r.stderr+r.stdout):
         print(name,'PATCH DOES NOT APPLY'); continue
-    try:
-        out=subprocess.run(['/verif/bin/gocv','check',prop,'--no-evidence'],capture_output=True,text=True).stdout
-    finally:
-        subprocess.run(['git','-C','/repo','checkout','--','.'])
     hits=[l[:200] for l in out.splitlines() if l.startswith(prop+' ')][:4]
     det='VIOLATION' in out
     was=m.get('detected_by_check')
